@@ -786,7 +786,10 @@ class SE3(SO3):
         :seealso: SE3.jacob, Twist.ad, :func:`~spatialmath.base.tr2jac`
         :SymPy: supported
         """
-        return base.adjoint(self.A)
+        if len(self) == 1:
+            return base.adjoint(self.A)
+        else:
+            return [base.adjoint(x) for x in self.A]
 
     def jacob(self):
         """
@@ -812,7 +815,10 @@ class SE3(SO3):
         :Reference: Robotics, Vision & Control: Second Edition, P. Corke, Springer 2016; p65.
         :SymPy: supported
         """
-        return base.tr2jac(self.A, samebody=False)
+        if len(self) == 1:
+            return base.tr2jac(self.A, samebody=False)
+        else:
+            return [base.tr2jac(x, samebody=False) for x in self.A]
 
     def Twist3(self):
         """
